@@ -98,7 +98,12 @@ async fn streaming_process(
                         writer.flush()?;
                         let mut reader = JournalReader::open(journal_path)?;
                         for event in &mut reader {
-                            tx.send(event?)?;
+                            if tx.send(event?).is_err() {
+                                // The client that asked for the history is gone (e.g. it has
+                                // disconnected), that is not a reason to stop journaling
+                                log::debug!("Journal replay interrupted, the receiver is closed");
+                                break;
+                            }
                         }
                     },
                     Some(EventStreamMessage::PruneJournal { mut live_jobs, mut live_workers, callback })  => {
